@@ -5,6 +5,7 @@ import (
 	"reflect"
 	"runtime"
 	"strings"
+	"xmc/core"
 
 	"github.com/xjslang/xjs/ast"
 	"github.com/xjslang/xjs/compiler"
@@ -320,10 +321,11 @@ func dumpTree(root any) string {
 // printing with source map). The properties quantify over programs for ANY history of other instances in the
 // same process; running this first makes every enumeration of a worker a "non-initial state" exploration:
 // state leaking from another configuration changes what the reference comparison sees.
-func processWarmup() {
+func processWarmup(c *core.Ctx) {
 	defer func() { recover() }()
 	for _, m := range Modes {
 		for _, src := range []string{"a\n(b)\n[c]", "let x = 1 let y = 2", "{ a", "x = `t`\n++y // c"} {
+			c.Cur(fmt.Sprintf("warm-up: %q in mode %s", src, m))
 			parseMode(src, m)
 		}
 	}
@@ -358,10 +360,16 @@ func processWarmup() {
 			}
 			pb.UseStatementInterceptor(func(p *parser.Parser, next func() ast.Statement) ast.Statement { return next() })
 			for _, src := range []string{"a W b; W a; a W", "a ! b; a !", "f(a)\n(b)"} {
+				c.Cur(fmt.Sprintf("warm-up: %q with a plugin token (prefix=%v infix=%v postfix=%v, built-in token=%v)", src, r.pre, r.in, r.post, builtin))
 				o := parseWith(pb, src)
 				if o.Prog != nil && o.Err == nil {
 					compileCfg(o.Prog, Cfg{Pretty: true, Indent: 0, Semi: 0, Map: true})
 				}
+			}
+			// a plain parser right after each plugin configuration (state must not have leaked)
+			for _, src := range []string{"a !b", "a W b", "! a ! b"} {
+				c.Cur(fmt.Sprintf("warm-up: plain parser on %q after a plugin builder (prefix=%v infix=%v postfix=%v, built-in token=%v) was built", src, r.pre, r.in, r.post, builtin))
+				parseMode(src, Mode{})
 			}
 		}
 	}
